@@ -47,6 +47,7 @@ PROBES = [
     "layers_ge_4", "all_labels_at_one_position", "list_edited_in_place_and_handed_over_again",
     "subset_of_used_labels", "clones_of_laid_out_labels", "readonly_inspection",
     "standalone_distributor_reused", "labels_remeasured_between_computes", "option_written_directly",
+    "caller_dropped_label_set", "engine_dropped_labels_kept",
 ]
 
 RULE = {
@@ -358,8 +359,14 @@ def gen_plan(rng, tier):
                         rng.randrange(1 << 30)])
         elif r < 0.90 and rng.random() < 0.5:
             ops.append(["inspect", e, rng.randrange(1 << 30)])
-        elif r < 0.90:
+        elif r < 0.90 and rng.random() < 0.5:
             ops.append(["rewidth", rng.randrange(nsets), rng.randrange(1 << 30)])
+        elif r < 0.90 and rng.random() < 0.5:
+            ops.append(["forget", rng.randrange(nsets)])
+        elif r < 0.90:
+            ops.append(["drop_engine", e])
+            have_engine.discard(e)
+            engine_set[e] = None
         elif r < 0.94:
             s = rng.randrange(nsets)
             ops.append(["distribute", s, gen_dist_opts(rng, sets[s]), rng.choice(["fresh", "fresh", "existing", "reuse", "reuse"])])
@@ -441,7 +448,7 @@ def well_formed(plan):
     for op in plan["ops"]:
         if op[0] in ("set_labels",) and op[2] >= nsets:
             continue
-        if op[0] in ("stale", "distribute", "rewidth") and op[1] >= nsets:
+        if op[0] in ("stale", "distribute", "rewidth", "forget") and op[1] >= nsets:
             continue
         ops.append(op)
     if not ops:
@@ -601,6 +608,17 @@ def effective_dist_opts(force_opts):
 
 # ------------------------------------------------------------------ execution (child)
 
+def _chain_signature(n):
+    """What a label's stub chain looks like: layer number and, per stub towards the
+    axis, (layerIndex, idealPos, width, child is the previous item)."""
+    out = [n.layerIndex]
+    prev, p, guard = n, n.parent, 0
+    while p is not None and guard < 64:
+        out.append([p.layerIndex, canon(p.idealPos), canon(p.width), p.child is prev, canon(p.currentPos)])
+        prev, p, guard = p, p.parent, guard + 1
+    return out
+
+
 def _observed_map(labels):
     m = {}
     for n in labels:
@@ -709,12 +727,23 @@ def _run(plan):
                         break
                     seen.setdefault(t, kind)
 
+    orphans = []  # labels whose engine was dropped right after a correct layout
+
     def touch(ids, except_engine=None):
         for e2, other in engines.items():
             if e2 != except_engine and other.get("clean") and other.get("label_ids") and (other["label_ids"] & ids):
                 other["clean"] = None
+        orphans[:] = [o for o in orphans if not (o["ids"] & ids)]
 
     def recheck(step):
+        for o in list(orphans):
+            now = [_chain_signature(n) for n in o["labels"]]
+            if now != o["chains"]:
+                last = min(step, len(plan["ops"]) - 1)
+                c04.append({"property": "C04", "class": "corrupted_later:chains_changed_after_engine_dropped", "step": last,
+                            "detail": {"op": plan["ops"][last], "engine_dropped_at_step": o["since"],
+                                       "before": o["chains"][:6], "after": now[:6]}})
+                orphans.remove(o)
         for e2, eng in engines.items():
             cl = eng.get("clean")
             if not cl or cl["step"] >= step:
@@ -1012,6 +1041,28 @@ def _run(plan):
                         repr(n)
                 except Exception as ex:
                     outcome = "raise:" + type(ex).__name__
+        elif kind == "forget":
+            # the caller drops its own references to a label set: the objects live on
+            # only as long as some engine still holds them
+            if op[1] in objs:
+                del objs[op[1]]
+                laid_by.pop(op[1], None)
+                bump("probe:caller_dropped_label_set")
+            else:
+                outcome = "skipped"
+        elif kind == "drop_engine":
+            # the engine (and its reported layering) is dropped; the caller keeps the labels.
+            # Their stub chains are part of the layout result and must survive.
+            eng = engines.pop(op[1], None)
+            if eng is None:
+                outcome = "skipped"
+            else:
+                if eng.get("clean") and eng.get("labels"):
+                    orphans.append({"labels": list(eng["labels"]), "ids": set(eng["label_ids"]),
+                                    "chains": [_chain_signature(n) for n in eng["labels"]],
+                                    "since": step})
+                    bump("probe:engine_dropped_labels_kept")
+                del eng
         elif kind == "rewidth":
             # labels are re-measured: every label at some positions gets a new width
             # (one width per position is kept), on the existing objects
